@@ -565,6 +565,17 @@ def run(run):
         classbound(run, fx)
     except AnalysisBroken as ex:
         run.broken('GIDCLAMP', 'getClassGlyph answers from inside the class', str(ex))
+    from . import c19, ordint as O_
+    rs_ = fx.one('graphite2::Segment::reverseSlots')
+    inst_ = 'reverseSlots leaves a well-formed chain of the same slots (interpreted)'
+    try:
+        cases_, bad_ = c19.reverse_exec(run, fx, 5)
+        if bad_:
+            run.violated('LINKSYM', inst_, rs_.where(), bad_)
+        else:
+            run.held('LINKSYM', inst_, rs_.where(), '%d streams x mark placements interpreted' % cases_)
+    except O_.AnalysisBroken as ex:
+        run.broken('LINKSYM', inst_, str(ex), rs_.where())
     run.assume('pre-state of each mutator is a well-formed stream (the rules are the preservation step of an induction; the base case is '
                'appendSlot on the empty segment)')
     run.assume('allocation failure is outside the quantifier')
